@@ -103,8 +103,8 @@ def placeBlock (g : G) (lmax : Nat) (spacing : Rat) (bw : Array Rat) (roots : Ar
 
 def placeBlockFuel (g : G) : Nat := (g.nodes.size + 2) * (g.nodes.size + 2)
 
-/-- `execSinkColoring`; also returns the recursion depth of placeBlock -/
-def execSinkColoring (ns : Rat) (g : G) : M (G × Nat) := do
+/-- block building: `setColor` for every node, bottom layer first; returns (blockwidth, roots) -/
+def scBlocks (g : G) : M (Array Rat × Array Nat) := do
   let n := g.nodes.size
   let mut s : SCSt := { colors := (List.range n).toArray, roots := (List.range n).toArray, priority := [] }
   let mut bw : Array Rat := Array.replicate n 0
@@ -114,8 +114,12 @@ def execSinkColoring (ns : Rat) (g : G) : M (G × Nat) := do
       s := s'
       let r := s.roots.getD k k
       bw := bw.setIfInBounds r (maxRat (bw.getD r 0) w)
-  let root := fun k => s.roots.getD k k
-  -- initial coordinates: left to right, one block width per node
+  pure (bw, s.roots)
+
+/-- initial coordinates (left to right, one block width per node) and `blockmax` -/
+def scInit (ns : Rat) (g : G) (bw : Array Rat) (roots : Array Nat) : PBSt := Id.run do
+  let n := g.nodes.size
+  let root := fun k => roots.getD k k
   let mut xc : Array Rat := Array.replicate n 0
   for layer in g.layers.toList do
     let xs := Phase4Simple.placeFrom 0 ns (layer.nodes.map fun k => bw.getD (root k) 0)
@@ -126,9 +130,19 @@ def execSinkColoring (ns : Rat) (g : G) : M (G × Nat) := do
   for k in g.nodeIds do
     if g.layers.toList.any (·.nodes.contains k) then
       bm := bm.setIfInBounds (root k) (maxRat (bm.getD (root k) 0) (xc.getD k 0))
-  let lmax := g.layers.toList.foldl (fun m l => max m l.nodes.length) 0
-  let (ps, depth) ← placeBlock g lmax ns bw s.roots (placeBlockFuel g) { xcoord := xc, blockmax := bm }
-  let g := g.layers.toList.foldl (fun g l => l.nodes.foldl (fun g k => g.modNode k fun nd => { nd with x := ps.xcoord.getD k 0 }) g) g
-  pure ({ g with layers := g.layers.map (growH g) }, depth)
+  pure { xcoord := xc, blockmax := bm }
+
+def scLmax (g : G) : Nat := g.layers.toList.foldl (fun m l => max m l.nodes.length) 0
+
+/-- `n.X = xcoord[n]; l.H = max(l.H, n.H)` -/
+def scPlan (g : G) (xc : Array Rat) : List (List Nat × List Rat) :=
+  g.layers.toList.map fun l => (l.nodes, l.nodes.map fun k => xc.getD k 0)
+def scWrite (g : G) (xc : Array Rat) : G := growAllH (placeAll g (scPlan g xc))
+
+/-- `execSinkColoring`; also returns the recursion depth of placeBlock -/
+def execSinkColoring (ns : Rat) (g : G) : M (G × Nat) := do
+  let (bw, roots) ← scBlocks g
+  let (ps, depth) ← placeBlock g (scLmax g) ns bw roots (placeBlockFuel g) (scInit ns g bw roots)
+  pure (scWrite g ps.xcoord, depth)
 
 end Autog
